@@ -12,6 +12,9 @@
 //!                          0x3333) instead of the read of five holding registers
 //!           | @X           (client) the application drops the future of the outstanding request now (abort of the task
 //!                          awaiting it); whatever the peer sends afterwards must not hurt the channel task
+//!           | @T<ms>       (client) virtual time advances by <ms> milliseconds (the request's timeout is 1000 ms); the
+//!                          output field `pending_after_deadline` says whether the request was still pending the first
+//!                          time the clock had advanced by 1000 ms or more since it was sent (1 = a peer kept it alive)
 //!           | @R           the transmit path has room again (releases a parked write)
 //!                          (client: @W / @R tokens before the first chunk take effect before the request is sent)
 //!   role    = server | client
@@ -207,7 +210,7 @@ async fn run_server(framing: Framing, level: DecodeLevel, tokens: Vec<Token>) ->
             }
             Token::Write(w) => wire.script_writes(&[*w]),
             Token::Release => wire.release_write(),
-            Token::Auth | Token::WriteRequest | Token::DropRequest => {}
+            Token::Auth | Token::WriteRequest | Token::DropRequest | Token::Advance(_) => {}
         }
         settle().await;
     }
@@ -254,6 +257,7 @@ pub enum Token {
     Auth,
     WriteRequest,
     DropRequest,
+    Advance(u64),
 }
 
 fn panic_text(e: tokio::task::JoinError) -> String {
@@ -304,6 +308,8 @@ async fn run_client(framing: Framing, level: DecodeLevel, tokens: Vec<Token>) ->
     });
     settle().await;
     let mut n = 0;
+    let mut elapsed_ms: u64 = 0;
+    let mut pending_after_deadline: Option<bool> = None;
     for t in &tokens {
         match t {
             Token::Chunk(c) => {
@@ -322,6 +328,14 @@ async fn run_client(framing: Framing, level: DecodeLevel, tokens: Vec<Token>) ->
             Token::Release => wire.release_write(),
             Token::Auth | Token::WriteRequest => {}
             Token::DropRequest => req.abort(),
+            Token::Advance(ms) => {
+                tokio::time::advance(Duration::from_millis(*ms)).await;
+                settle().await;
+                elapsed_ms += *ms;
+                if elapsed_ms >= 1000 && pending_after_deadline.is_none() {
+                    pending_after_deadline = Some(!req.is_finished());
+                }
+            }
         }
         settle().await;
     }
@@ -359,8 +373,8 @@ async fn run_client(framing: Framing, level: DecodeLevel, tokens: Vec<Token>) ->
         "Running".to_string()
     };
     format!(
-        "ok frames_or_replies={n} end={end} alive_after={} shutdown_ok={} request_completed={} out={} res={}",
-        alive as u8, shutdown_ok as u8, completed as u8, out_hex, res
+        "ok frames_or_replies={n} end={end} alive_after={} shutdown_ok={} request_completed={} pending_after_deadline={} out={} res={}",
+        alive as u8, shutdown_ok as u8, completed as u8, pending_after_deadline.map(|b| b as u8).unwrap_or(0), out_hex, res
     )
 }
 
@@ -384,6 +398,8 @@ fn run_case(line: &str) -> String {
                 Token::WriteRequest
             } else if *h == "@X" {
                 Token::DropRequest
+            } else if let Some(ms) = h.strip_prefix("@T") {
+                Token::Advance(ms.parse().unwrap_or(0))
             } else if *h == "@R" {
                 Token::Release
             } else {
